@@ -56,7 +56,7 @@ CHECKS = {
             'model_checking',
             'Full products of residue numbers {-1,0,1,9999,10000,99999,100000} x name lengths 1..6 (atom and residue) x chain, of 9-10 '
             'coordinate values per axis across and beyond the representable range, and of resid x coordinate x name overflow, on two-molecule '
-            'systems, for PDB and GRO; atom counts 1,2,3,12,9998,10000,10001 (thorough 9997..10001, 99997..100000) x 1/2/3-molecule splits '
+            'systems, for PDB and GRO; atom counts 1,2,3,12,9998,10000,10001 (thorough 9997..10001, and 99996..99998 with last serial <= 99999) x 1/2/3-molecule splits '
             'x bond patterns (path, stars of degree 1..9, bonds around serial 9999/10000, first-last) for PDB CONECT/TER. Each read-back field '
             'is judged by its own column rule, so a shifted column is a mismatch even where another field overflowed.',
             'Names without blanks; an overflowing field may return any width-long prefix or suffix of its text.', '§4 C16'),
